@@ -72,6 +72,88 @@ class Machine:
         raise ValueError(k)
 
 
+class Denot:
+    """by-definition meaning of a program, independent of the diagram representation: every register denotes a function from assignments
+    (tuples over its unit list) to values; None = not tracked (after an edge overwrite, whose meaning depends on the representation)"""
+    def __init__(self, dom):
+        self.dom = dom
+        self.regs = {}
+        self.zero = [0] * (len(dom["box"]) if "box" in dom else 1 + 2 * dom["tally"][2])
+
+    def step(self, op):
+        k = op["op"]
+        R = self.regs
+        try:
+            if k in ("chain", "tree"):
+                us = list(op["units"])
+                R[op["out"]] = (us, {a: list(self.zero) for a in itertools.product(range(2), repeat=len(us))})
+            elif k == "concat":
+                parts = [R.get(r) for r in op["els"]]
+                if any(p is None for p in parts):
+                    R[op["out"]] = None
+                    return
+                us = [u for p in parts for u in p[0]]
+                tab = {}
+                for a in itertools.product(range(2), repeat=len(us)):
+                    v, pos = list(self.zero), 0
+                    for pu, pt in parts:
+                        v = au.sat_add(self.dom, v, pt[a[pos:pos + len(pu)]])
+                        pos += len(pu)
+                    tab[a] = v
+                R[op["out"]] = (us, tab)
+            elif k == "stack":
+                parts = [R.get(r) for r in op["els"]]
+                if any(p is None for p in parts):
+                    R[op["out"]] = None
+                    return
+                nf = len(op["factors"])
+                us = list(op["factors"]) + parts[0][0]
+                tab = {}
+                for a in itertools.product(range(2), repeat=len(us)):
+                    idx = int("".join(str(b) for b in a[:nf]), 2)
+                    tab[a] = parts[idx][1][a[nf:]]
+                R[op["out"]] = (us, tab)
+            elif k == "update":
+                d = R.get(op["d"])
+                # only single-unit increments have a representation-independent meaning ("add v wherever x[u] == c"): a multi-unit location is
+                # the set of edges of its LAST unit reached by consistent paths, which depends on how far the diagram separates the earlier units
+                if d is None or not op["inc"] or len(op["asg"]) != 1:
+                    R[op["d"]] = None
+                    return
+                us, tab = d
+                for a in tab:
+                    if all(a[us.index(u)] == v for u, v in op["asg"]):
+                        tab[a] = au.sat_add(self.dom, tab[a], op["v"])
+            elif k == "setedge":
+                R[op["d"]] = None
+            elif k == "restrict":
+                d = R.get(op["d"])
+                if d is None:
+                    R[op["out"]] = None
+                    return
+                us, tab = d
+                pos = us.index(op["unit"])
+                R[op["out"]] = ([u for u in us if u != op["unit"]],
+                                {a[:pos] + a[pos + 1:]: v for a, v in tab.items() if a[pos] == op["value"]})
+            elif k == "sum":
+                a, b = R.get(op["a"]), R.get(op["b"])
+                if a is None or b is None:
+                    R[op["out"]] = None
+                    return
+                R[op["out"]] = (a[0], {x: au.sat_add(self.dom, a[1][x], b[1][x]) for x in a[1]})
+        except Exception:  # noqa  (ill-formed step: nothing to say)
+            for key in ("out", "d"):
+                if key in op:
+                    R[op[key]] = None
+
+    def evalall(self, r):
+        d = self.regs.get(r)
+        if d is None:
+            return None
+        us, tab = d
+        return [tab[a] for a in itertools.product(range(2), repeat=len(us))]
+
+
 def gen_program(rng, dom, max_units):
     """returns (ops, meta)"""
     ops = []
@@ -94,7 +176,7 @@ def gen_program(rng, dom, max_units):
 
     def updates(r, us, k):
         for _ in range(k):
-            w = rng.randint(1, min(3, len(us)))
+            w = 1 if rng.random() < 0.5 else rng.randint(1, min(3, len(us)))
             asg = [[u, rng.randrange(2)] for u in rng.sample(us, w)]
             ops.append({"op": "update", "d": r, "asg": asg, "v": au.rand_value(rng, dom), "inc": rng.random() < 0.7})
             kinds.add("update")
@@ -107,10 +189,15 @@ def gen_program(rng, dom, max_units):
                 factors, rest = us[:k], us[k:]
                 base = build(rest, depth - 1)
                 els = []
+                hetero = rng.random() < 0.5          # elements of different shapes/diameters over the same units (chain, tree, nested) vs copies of one
                 for _ in range(2 ** k):
                     r = new()
-                    # a copy with its own updates: rebuild deterministically by restrict-free copy = sum is not a copy; use concat of single = copy
-                    ops.append({"op": "concat", "out": r, "els": [base]})
+                    if hetero:
+                        src = build(rest, depth - 1) if rng.random() < 0.5 else leaf(rest)
+                    else:
+                        src = base
+                    # concat of a single element = a copy with its own registers
+                    ops.append({"op": "concat", "out": r, "els": [src]})
                     updates(r, rest, rng.randint(0, 2))
                     els.append(r)
                 out = new()
@@ -219,10 +306,28 @@ def run(ctx):
         case = dict(dom=dom, ops=ops)
         mach = Machine(I, dom)
         outs = [mach.step(op) for op in ops]
+        den = Denot(dom)
+        den_bad = None
+        for kk, (op, o) in enumerate(zip(ops, outs)):
+            if isinstance(o, dict) and "err" in o:
+                break                      # after a failing step registers diverge; the relations below still apply
+            den.step(op)
+            if op["op"] == "evalall" and isinstance(o, list):
+                want_ev = den.evalall(op["d"])
+                if want_ev is not None:
+                    ctx.dist["denotation_checked"] += 1
+                    if want_ev != o:
+                        den_bad = (kk, o, want_ev)
+                        break
         ans = ctx.model({"op": "addprog", "dom": dom, "ops": ops})
         nontriv = ({"stack", "concat"} & set(meta["kinds"])) and "update" in meta["kinds"] and ({"restrict", "sum"} & set(meta["kinds"]))
         ctx.case(ops, nontrivial=bool(nontriv), sample=(case if len(ops) <= 12 else None), dom=str(dom), **{("has_" + k): True for k in meta["kinds"]})
         ctx.maxi(variables=len(meta["units"]), ops=len(ops))
+        if den_bad is not None:
+            ctx.mismatch("evaluation differs from the meaning of the construction (chain/tree = 0, stack selects the element by the factor bits, concatenate adds "
+                         "the elements on their argument slices, update adds on the matching assignments, restrict fixes, sum adds) at step %d" % den_bad[0],
+                         case, impl=den_bad[1], spec=den_bad[2])
+            continue
         # 1. relations on the implementation itself (the definition)
         obs = {}
         for op, out in zip(ops, outs):
